@@ -222,6 +222,16 @@ def build_harness(release=False):
 # running cases
 # ---------------------------------------------------------------------------
 
+def split_modules(payload):
+    """[(path, source)] of a multi-module payload ("//// module <path>" separators), as harness/src/ir.rs does"""
+    if not payload.startswith("//// module "): return [("case.pn", payload)]
+    out = []
+    for line in payload.split("\n"):
+        if line.startswith("//// module "): out.append([line[len("//// module "):].strip(), ""])
+        elif out: out[-1][1] += line + "\n"
+    return [(n, s) for n, s in out]
+
+
 def esc(b):
     if isinstance(b, str): b = b.encode()
     out = []
